@@ -96,6 +96,33 @@ def compare(a, b, ign, ids, setter):
     return c
 
 
+def env_cases(arg):
+    """Run in a NEW interpreter started with FLOW_RECORD_IGNORE=<arg>: the ignored-fields configuration comes from the
+    environment; pairs are compared WITHOUT any call of the setter.  -> eq traces."""
+    import flow.record.base as base
+    from flow.record import GroupedRecord, RecordDescriptor
+
+    ign = set(arg.split(",")) if arg else set()
+    assert base.IGNORE_FIELDS_FOR_COMPARISON == ign, "FLOW_RECORD_IGNORE was not picked up"
+    D = RecordDescriptor("t/env", [("string", "f"), ("string", "g"), ("varint", "n")])
+    H = RecordDescriptor("t/envh", [("record", "r"), ("string", "g")])
+    import datetime as _dt
+
+    G1, G2 = gen.GEN, _dt.datetime(2021, 5, 6, 7, 8, 9, tzinfo=_dt.timezone.utc)
+    pairs = [("same", D("a", "x", 1, _generated=G1), D("a", "x", 1, _generated=G1)), ("vary-g", D("a", "x", 1, _generated=G1), D("a", "y", 1, _generated=G1)),
+             ("vary-f", D("a", "x", 1, _generated=G1), D("b", "x", 1, _generated=G1)), ("vary-generated", D("a", "x", 1, _generated=G1), D("a", "x", 1, _generated=G2)),
+             ("vary-g-and-generated", D("a", "x", 1, _generated=G1), D("a", "y", 1, _generated=G2)),
+             ("nested-vary-g", H(D("a", "x", 1, _generated=G1), "h", _generated=G1), H(D("a", "y", 1, _generated=G1), "h", _generated=G1)),
+             ("grouped-vary-g", GroupedRecord("g/e", [D("a", "x", 1, _generated=G1), H(None, "h", _generated=G1)]), GroupedRecord("g/e", [D("a", "x", 1, _generated=G1), H(None, "other", _generated=G1)]))]
+    out = []
+    noop = lambda s: None      # the configuration is NOT touched
+    for label, a, b in pairs:
+        c = compare(a, b, ign, Ids(), noop)
+        c["env"], c["pair"] = arg, label
+        out.append(c)
+    return out
+
+
 def run(tier):
     import flow.record.base as base
     from flow.record import GroupedRecord, RecordDescriptor, ignore_fields_for_comparison, set_ignored_fields_for_comparison
@@ -211,6 +238,12 @@ def run(tier):
         # a grouped record nested in a grouped record
         inner_g = lambda gen2: GroupedRecord("g/in", [mk("x", 1), I2("x", "g1", _generated=gen2)])
         add(GroupedRecord("g/out", [inner_g(gen.GEN), mk("z", 3)]), GroupedRecord("g/out", [inner_g(G2), mk("z", 3)]), ign, {"pair": "grouped-in-grouped-vary-generated", "ign": sorted(ign)})
+    # the configuration taken from the environment variable FLOW_RECORD_IGNORE by fresh interpreters
+    for envval in ("", "g", "g,_generated", "_generated", "f,g,n"):
+        for c in common.in_fresh_process("c12", "env_cases", envval, {"FLOW_RECORD_IGNORE": envval}):
+            traces.append(c)
+            metas.append({"pair": "env:" + c.pop("pair"), "type": "FLOW_RECORD_IGNORE=" + c.pop("env")})
+            ctx.case(json.dumps(metas[-1]))
     ctx.sample({"trace": traces[0], "meta": metas[0]})
     neq = len(traces)
     # scope traces
